@@ -6,6 +6,11 @@ Coq model (Model/C11.v, count_table) as exact Fractions; the per-read filter dec
 with read_should_be_counted called directly.  search(): the declarative specification (a direct Python
 transcription of Proofs/C11.v spec_cell / passes, `Oracle` below; and mode 2 specb of the model when it builds)
 is evaluated on the implementation's own output, the failing case is shrunk to one read / one pair.
+
+Extension (Model/C11x.v, kind 'x'): several BAM files, -head, --showtags / neither -o nor return_df, file output
+(pickle, pickle.gz, csv) with and without --bulk, by-value counting on float typed (f, d) tags.  The outcome of
+create_count_table (a table, an exception, or "ended without a table") is compared with xrun (mode 5), the proved
+specification xspecb (mode 7) and its Python transcription `XOracle` are evaluated on the implementation's outcome.
 """
 import itertools, json, os
 from fractions import Fraction
@@ -36,7 +41,7 @@ CIGOP = {c: i for i, c in enumerate('MIDNSHP=X')}
 MODELLED_ARGS = ['r1only', 'r2only', 'filterMP', 'minMQ', 'proper_pairs_only', 'no_indels', 'max_base_edits', 'no_softclips',
                  'filterXA', 'dedup', 'blacklist', 'doNotDivideFragments', 'divideMultimapping', 'featureTags',
                  'joinedFeatureTags', 'byValue', 'splitFeatures', 'featureDelimiter', 'sampleTags', 'contig', 'bedfile',
-                 'alignmentfiles', 'bin', 'binTag', 'head']
+                 'alignmentfiles', 'bin', 'binTag', 'head', 'bulk', 'noNames', 'o']
 
 
 def codes(s):
@@ -360,10 +365,93 @@ def translate_prep(path):
                   'args_written': written}
 
 
+def translate_head(path):
+    """create_count_table: the two `for i, read in enumerate(...)` loops that call assignReads (plain / -contig: over
+    pysam_iterator; BED: over f.fetch(chromo, start, end)).  Translated: the break test on args.head and whether it
+    stands before or after the assignReads call.  Everything else in the loop bodies must be free of control flow."""
+    src = open(path).read()
+    fn = py2coq.find_function(ast.parse(src), 'create_count_table')
+    loops = {}
+    for n in ast.walk(fn):
+        if not isinstance(n, ast.For):
+            continue
+        if not any(isinstance(c, ast.Call) and isinstance(c.func, ast.Name) and c.func.id == 'assignReads' for c in ast.walk(n)):
+            continue
+        if any(isinstance(c, ast.For) and c is not n and
+               any(isinstance(d, ast.Call) and isinstance(d.func, ast.Name) and d.func.id == 'assignReads' for d in ast.walk(c))
+               for c in ast.walk(n)):
+            continue                                    # an outer loop (files, BED rows) around the record loop
+        it = n.iter
+        if not (isinstance(it, ast.Call) and isinstance(it.func, ast.Name) and it.func.id == 'enumerate'
+                and len(it.args) == 1 and not it.keywords and ast.unparse(n.target) == '(i, read)' and not n.orelse):
+            raise Untranslatable('create_count_table: record loop is not `for i, read in enumerate(<iterator>)` at line %d'
+                                 % n.lineno)
+        arg = ast.unparse(it.args[0])
+        kind = 'plain' if arg == 'pysam_iterator' else ('bed' if arg == 'f.fetch(chromo, start, end)' else None)
+        if kind is None or kind in loops:
+            raise Untranslatable('create_count_table: unexpected record iterator %s at line %d' % (arg, n.lineno))
+        loops[kind] = n
+    if sorted(loops) != ['bed', 'plain']:
+        raise Untranslatable('create_count_table: the plain and the BED record loop were not both found')
+
+    def test_expr(t):
+        if not (isinstance(t, ast.BoolOp) and isinstance(t.op, ast.And) and len(t.values) == 2
+                and ast.unparse(t.values[0]) == 'args.head is not None'):
+            raise Untranslatable('-head test outside subset: %s' % ast.unparse(t))
+        c = t.values[1]
+        if not (isinstance(c, ast.Compare) and len(c.ops) == 1):
+            raise Untranslatable('-head test outside subset: %s' % ast.unparse(t))
+        l, r, op = ast.unparse(c.left), ast.unparse(c.comparators[0]), c.ops[0]
+        tab = {ast.Gt: '>?', ast.GtE: '>=?', ast.Lt: '<?', ast.LtE: '<=?', ast.Eq: '=?'}
+        if type(op) not in tab:
+            raise Untranslatable('-head test outside subset: %s' % ast.unparse(t))
+        if (l, r) == ('i', 'args.head'):
+            return '(i %s n)' % tab[type(op)]
+        if (l, r) == ('args.head', 'i'):
+            return '(n %s i)' % tab[type(op)]
+        raise Untranslatable('-head test outside subset: %s' % ast.unparse(t))
+
+    lines, meta_lines, shas = [], {}, []
+    for kind in ('plain', 'bed'):
+        n = loops[kind]
+        call = test = None
+        for k, st in enumerate(n.body):
+            has_call = any(isinstance(c, ast.Call) and isinstance(c.func, ast.Name) and c.func.id == 'assignReads'
+                           for c in ast.walk(st))
+            mentions_head = 'args.head' in ast.unparse(st)
+            if has_call:
+                if call is not None or mentions_head or not isinstance(st, (ast.AugAssign, ast.Assign, ast.Expr)):
+                    raise Untranslatable('%s loop: assignReads call outside subset at line %d' % (kind, st.lineno))
+                call = k
+            elif mentions_head:
+                if test is not None or not (isinstance(st, ast.If) and not st.orelse and len(st.body) == 1
+                                            and isinstance(st.body[0], ast.Break)):
+                    raise Untranslatable('%s loop: -head statement outside subset at line %d' % (kind, st.lineno))
+                test = k
+            else:
+                for c in ast.walk(st):
+                    if isinstance(c, (ast.Break, ast.Continue, ast.Return, ast.Raise, ast.Try, ast.For, ast.While)) or \
+                            (isinstance(c, ast.Name) and isinstance(c.ctx, ast.Store) and c.id in ('i', 'read', 'args')):
+                        raise Untranslatable('%s loop: control flow outside subset at line %d' % (kind, st.lineno))
+        if call is None or test is None:
+            raise Untranslatable('%s loop: assignReads call / -head test not found' % kind)
+        seg = ast.get_source_segment(src, n)
+        sha = hashlib.sha256(seg.encode()).hexdigest()
+        shas.append(sha)
+        lines.append('(* source: %s lines %d-%d sha256 %s : %s record loop of create_count_table;\n   %s   [%s the assignReads call] *)\n'
+                     'Definition gen_head_stop_%s (h : option Z) (i : Z) : bool :=\n  match h with Some n => %s | None => false end.\n'
+                     'Definition gen_head_test_first_%s : bool := %s.'
+                     % (SRC, n.lineno, n.end_lineno, sha, kind, ' '.join(ast.unparse(n.body[test].test).split()),
+                        'before' if test < call else 'after', kind, test_expr(n.body[test].test), kind,
+                        'true' if test < call else 'false'))
+        meta_lines[kind] = [n.lineno, n.end_lineno]
+    return '\n\n'.join(lines), {'source': SRC, 'lines': meta_lines, 'sha256': shas, 'coq': 'gen_head_stop_* / gen_head_test_first_*'}
+
+
 def regen_filter():
     p = os.path.join(fw.REPO, SRC)
     chunks, meta = [], []
-    for f in (translate_guards, translate_weight, translate_prep):
+    for f in (translate_guards, translate_weight, translate_prep, translate_head):
         t, m = f(p)
         chunks.append(t); meta.append(m)
     py2coq.write_gen(os.path.join(fw.COQ, 'Gen', 'GenCountFilter.v'),
@@ -376,7 +464,41 @@ def opt(x, f=lambda v: v):
     return [] if x is None else [f(x)]
 
 
+class Flt:
+    """a float tag value as the implementation's own float: exact rational + the text str() prints for it"""
+    __slots__ = ('q', 's')
+
+    def __init__(self, num, den, s):
+        self.q, self.s = Fraction(num, den), s
+
+    def __str__(self):
+        return self.s
+
+    def __repr__(self):
+        return 'Flt(%s)' % self.s
+
+    def __eq__(self, other):
+        return isinstance(other, Flt) and (self.q, self.s) == (other.q, other.s)
+
+    def __hash__(self):
+        return hash((self.q, self.s))
+
+
+def lift_floats(backs):
+    """readback [num, den, text] of a float tag -> Flt (in place)"""
+    for back in backs:
+        for b in back:
+            for t in b['tags']:
+                if t[1] == 'f' and isinstance(t[2], list):
+                    if t[2][1] == 0:
+                        raise ValueError('non-finite float tag generated: %r' % (t,))
+                    t[2] = Flt(*t[2])
+    return backs
+
+
 def enc_tval(v):
+    if isinstance(v, Flt):
+        return [2, v.q.numerator, v.q.denominator, fw.to_val(v.s)]
     return [0, v] if isinstance(v, int) else [1, fw.to_val(v)]
 
 
@@ -407,6 +529,8 @@ def enc_opts(o):
 
 
 def dec_tval(v):
+    if v[0] == 2:
+        return Flt(v[1], v[2], fw.as_str(v[3]))
     return v[1] if v[0] == 0 else fw.as_str(v[1])
 
 
@@ -480,7 +604,7 @@ class Oracle:
         if not (b['flag'] & 4) and (not b['ops'] or b['end'] is None):
             return False
         nm, xa, nh = cls.tag(b, 'NM'), cls.tag(b, 'XA'), cls.tag(b, 'NH')
-        if nm and not isinstance(nm[0], int):
+        if nm and isinstance(nm[0], str):
             return False
         if xa:
             if not isinstance(xa[0], str):
@@ -518,7 +642,7 @@ class Oracle:
             (not o.get('proper_pairs_only')) or bool(fl & 2),
             not fl & 4,
             (not o.get('no_indels')) or not (1 in b['ops'] or 2 in b['ops']),
-            o.get('max_base_edits') is None or tag('NM') is None or tag('NM')[0] <= o['max_base_edits'],
+            o.get('max_base_edits') is None or tag('NM') is None or self.as_int(tag('NM')[0]) <= o['max_base_edits'],
             (not o.get('no_softclips')) or 4 not in b['ops'],
             (not o.get('filterXA')) or tag('XA') is None
             or not any(e != '' and not e.split(',')[0].endswith('_alt') for e in tag('XA')[0].split(';')),
@@ -528,6 +652,13 @@ class Oracle:
                 for c, s, e in o['blacklist']),
         ]
         return all(conj)
+
+    @staticmethod
+    def as_int(v):
+        """int(v) for an integer or float tag (truncation towards zero)"""
+        if isinstance(v, Flt):
+            return int(v.q) if v.q >= 0 else -int(-v.q)
+        return v
 
     def weight(self, b):
         o, fl = self.o, b['flag']
@@ -547,6 +678,8 @@ class Oracle:
     def number(s):
         """value of a plain decimal literal, else 0 (float(s) except ValueError: 0)"""
         import re
+        if isinstance(s, Flt):
+            return s.q
         s = s.strip(' \t\n\r\x0b\x0c')
         if re.fullmatch(r'[+-]?(\d+\.?\d*|\.\d+)', s):
             return Fraction(s)
@@ -556,7 +689,11 @@ class Oracle:
         """[(rawkey, amount)] ; rawkey = tuple of str, or a bare str (single tags + splitFeatures)"""
         w = self.weight(b)
         nonbv = tuple(self.feat(b, t) for t in self.ft if not (self.bv is not None and t == self.bv))
-        amount = lambda: self.number(self.feat(b, self.bv)) if self.bv in self.ft else Fraction(0)
+        def amount():
+            if self.bv not in self.ft:
+                return Fraction(0)
+            v = self.meta(b, self.bv)
+            return self.number(v if isinstance(v, Flt) else str(v))
         if self.joined:
             if self.split:
                 states = itertools.product(*[self.feat(b, t).split(self.delim) for t in self.ft])
@@ -590,8 +727,11 @@ class Oracle:
         """the declarative group-by sum; None when the precondition of the theorems fails"""
         if not self.wf_opts() or not all(self.wf_read(b) for b in reads):
             return None
+        return self.table_of(self.presented(reads))
+
+    def table_of(self, pairs):
         t = {}
-        for reg, b in self.presented(reads):
+        for reg, b in pairs:
             if not self.passes(b):
                 continue
             sample = tuple(self.meta(b, s) for s in self.stags)
@@ -607,7 +747,111 @@ class Oracle:
         return {k: v for k, v in t.items() if v != 0}
 
 
+class XOracle:
+    """Direct transcription of the extended statements (Model/C11x.v xspecb, Props C11_table_eq_spec_x,
+    C11_table_bulk_eq_spec, C11_head_plain / _bed, C11_showtags_exit): which records the loops hand on (a prefix per file
+    / per region), the group-by sum over them, row sums for --bulk on the file-output path, no table for --showtags."""
+    BULK = ('Bulkseq',)
+
+    def __init__(self, o, x):
+        self.orc, self.o, self.x = Oracle(o), o, x
+
+    def exits(self):
+        return bool(self.x.get('showtags')) or self.x.get('mode') == 'none'
+
+    def bulk_mode(self):
+        return bool(self.x.get('bulk')) and self.x.get('mode') != 'df'
+
+    def presented(self, files):
+        o, h = self.o, self.x.get('head')
+        out = []
+        for reads in files:
+            if o.get('bed') is None:
+                it = [b for b in reads if o.get('contig') is None or b['refname'] == o['contig']]
+                if h is not None and self.x.get('head_documented'):
+                    it = it[:max(0, h)]
+                elif h is not None:
+                    it = it[:max(0, h + 1)]            # `if i > head: break` BEFORE the call
+                out += [(None, b) for b in it]
+                continue
+            for c, s, e, n in o['bed']:
+                if o.get('contig') is not None and c != o['contig']:
+                    continue
+                it = []
+                for b in reads:
+                    end = b['end'] if (b['end'] is not None and b['end'] > b['pos']) else b['pos'] + 1
+                    if b['refname'] == c and b['pos'] < e and s < end:
+                        it.append(b)
+                if h is not None and self.x.get('head_documented'):
+                    it = it[:max(0, h)]
+                elif h is not None:
+                    it = it[:max(1, h + 2)]            # the same test AFTER the call
+                out += [((s, e, n), b) for b in it]
+        return out
+
+    def outcome(self, files):
+        """('raise', name) | ('exit', None) | ('ok', table); None where the statements say nothing"""
+        if not files:
+            return ('raise', 'ValueError')
+        if self.exits():
+            return ('exit', None)
+        if not self.orc.wf_opts() or not all(self.orc.wf_read(b) for f in files for b in f):
+            return None
+        t = self.orc.table_of(self.presented(files))
+        if self.bulk_mode():
+            bt = {}
+            for (smp, key), v in t.items():
+                bt[(self.BULK, key)] = bt.get((self.BULK, key), 0) + v
+            t = {k: v for k, v in bt.items() if v != 0}
+        return ('ok', t)
+
+
+def enc_x(o, x):
+    mode = x.get('mode', 'df')
+    return [enc_opts(o), opt(x.get('head')), int(bool(x.get('bulk'))), int(bool(x.get('showtags'))),
+            int(mode == 'df'), int(mode in ('pickle', 'pickle.gz', 'csv'))]
+
+
+def dec_xmodel(v):
+    if v[0] == 1:
+        return ('raise', ERRNAME.get(v[1], 'E%d' % v[1]))
+    if v[0] == 2:
+        return ('exit', None)
+    return ('ok', dict(dec_cell(c) for c in v[1]))
+
+
+def enc_xobs(kind, table):
+    if kind == 'exit':
+        return [2]
+    return enc_out(kind, table)
+
+
+def strkeys(table):
+    """what a CSV can hold: every key component as text"""
+    out = {}
+    for (smp, key), v in table.items():
+        k = (smp, tuple(str(c) for c in key))
+        out[k] = out.get(k, 0) + v
+    return out
+
+
 # ----------------------------------------------------------------------------- generators
+FLOATS32 = [0.5, 0.25, 1.5, 2.0, 0.1, 0.3, 2.7, -1.25, 0.0, -0.0, 100.125, 1e-3, 3.0, 0.75, 7.0, -0.1, 255.5, 0.0625]
+FLOATS64 = [0.5, 0.25, 1.5, 2.0, -2.5, 0.0, 3.0, 0.125, 10.0, 1.0009765625, -0.75, 123.0]
+
+
+def exact_floats_ok(back):
+    """every float tag of the library is a multiple of 2^-40 of magnitude <= 2^8, at most 32 records: every partial
+    sum of such values and of weights 1, 1/2, 1/4, 1/8 is exactly representable, so IEEE accumulation is exact"""
+    if len(back) > 32:
+        return False
+    for b in back:
+        for k, t, v in b['tags']:
+            if isinstance(v, Flt) and ((2 ** 40) % v.q.denominator != 0 or abs(v.q) > 256):
+                return False
+    return True
+
+
 class Gen:
     def __init__(self, rng):
         self.rng = rng
@@ -724,6 +968,100 @@ class Gen:
                 v['tags'].append(['NH', 'Z', r.choice(['2', 'two'])])
         return {'contigs': CONTIGS, 'reads': reads}
 
+    def flib(self, nfrag):
+        """library with float typed tags (f: float32, d: double) for exact by-value sums; all weights are dyadic
+        (NH in 1, 2, 4; no XA)"""
+        r = self.rng
+        reads = []
+        for i in range(nfrag):
+            frag = {'name': 'f%d' % i, 'sm': r.choice(['c1', 'c2', 'c3']), 'ly': r.choice(['L1', 'L2']), 'ds': r.choice([0, 5, 17])}
+            ref = r.choice([0, 0, 0, 1])
+            pos = r.choice([0, 10, 50, 99, 100, 101, 120, 300, r.randint(0, 450)])
+
+            def tags():
+                t = [['SM', 'Z', frag['sm']]] if r.random() < 0.95 else []
+                if r.random() < 0.6:
+                    t.append(['LY', 'Z', frag['ly']])
+                if r.random() < 0.85:
+                    t.append(['GN', 'Z', r.choice(['g1', 'g2', 'g3', 'g1,g2'])])
+                x = r.random()
+                if x < 0.75:
+                    t.append(['fv', 'f', r.choice(FLOATS32)])
+                elif x < 0.85:
+                    t.append(['fv', 'Z', r.choice(['0.5', '1.25', '-2', 'x', '3.'])])
+                elif x < 0.92:
+                    t.append(['fv', 'i', r.choice([1, 2, -3])])
+                if r.random() < 0.5:
+                    t.append(['dv', 'd', r.choice(FLOATS64)])
+                if r.random() < 0.3:
+                    t.append(['NH', 'i', r.choice([1, 2, 2, 4])])
+                if r.random() < 0.5:
+                    t.append(['NM', r.choice(['i', 'i', 'f']), None])
+                    t[-1][2] = r.choice([0, 1, 2, 3]) if t[-1][1] == 'i' else r.choice([0.0, 1.5, 2.0, 2.75, -0.5])
+                if r.random() < 0.1:
+                    t.append(['RR', 'Z', 'dup'])
+                if r.random() < 0.1:
+                    t.append(['mp', r.choice(['Z', 'f']), None])
+                    t[-1][2] = 'unique' if t[-1][1] == 'Z' else 1.0
+                r.shuffle(t)
+                return t
+            kind = r.random()
+            mq = lambda: r.choice([0, 20, 60, 60, 60])
+            fl = lambda: (512 if r.random() < 0.08 else 0) | (1024 if r.random() < 0.12 else 0)
+            if kind < 0.5:
+                reads.append({'name': frag['name'], 'flag': fl(), 'ref': ref, 'pos': pos, 'mapq': mq(),
+                              'cigar': r.choice(CIGARS), 'tags': tags()})
+            elif kind < 0.9:
+                reads.append({'name': frag['name'], 'flag': 1 | 64 | 2 | fl(), 'ref': ref, 'pos': pos, 'mapq': mq(),
+                              'cigar': r.choice(CIGARS), 'tags': tags()})
+                reads.append({'name': frag['name'], 'flag': 1 | 128 | 2 | 16 | fl(), 'ref': ref, 'pos': pos + r.choice([0, 30]),
+                              'mapq': mq(), 'cigar': r.choice(CIGARS), 'tags': tags()})
+            else:
+                reads.append({'name': frag['name'], 'flag': 4, 'ref': ref, 'pos': pos, 'mapq': 0, 'cigar': None, 'tags': tags()})
+        return {'contigs': CONTIGS, 'reads': reads[:30], 'floats': True}
+
+    def fopts(self):
+        """option sets that exercise float tags: by-value on fv / dv, float tags as key components"""
+        r = self.rng
+        o = {k: r.random() < pr for k, pr in (('dedup', .25), ('doNotDivideFragments', .3), ('divideMultimapping', .35),
+                                             ('no_indels', .15), ('r1only', .1), ('proper_pairs_only', .1), ('filterMP', .08))}
+        o['minMQ'] = r.choice([0, 0, 0, 20, 60])
+        o['max_base_edits'] = r.choice([None, None, 0, 1, 2])
+        tags = r.choice([['GN'], ['GN'], ['chrom'], ['GN', 'chrom'], ['GN', 'fv'], ['dv'], ['SM', 'GN'], ['fv', 'dv']])
+        if r.random() < 0.65:
+            o['joinedFeatureTags'] = ','.join(tags)
+        else:
+            o['featureTags'] = ','.join(tags)
+        if r.random() < 0.8:
+            o['byValue'] = r.choice(['fv', 'fv', 'fv', 'dv', 'dv', 'GN', 'XX'])
+        if r.random() < 0.1 and 'joinedFeatureTags' not in o:
+            o['splitFeatures'] = True
+        o['sampleTags'] = r.choice(['SM', 'SM', 'SM', 'SM,LY', 'LY'])
+        if r.random() < 0.15:
+            o['contig'] = r.choice(['chr1', 'chr2'])
+        if r.random() < 0.15:
+            o['bed'] = [self.interval() + ['b%d' % r.randint(0, 2)] for _ in range(r.randint(1, 3))]
+        o['noNames'] = r.random() < 0.3
+        return o
+
+    def xopt(self, nreads, allow_csv=True):
+        """the options around the accumulation; -head is drawn around the number of records (0, 1, n-1, n, n+1 ...)"""
+        r = self.rng
+        x = {}
+        if r.random() < 0.6:
+            x['head'] = r.choice([0, 0, 1, 1, 2, 3, max(0, nreads - 2), max(0, nreads - 1), nreads, nreads + 1, -1, -3,
+                                  r.randint(0, max(1, nreads))])
+        x['mode'] = r.choice(['df', 'df', 'pickle', 'pickle', 'pickle', 'pickle.gz', 'csv', 'csv'] if allow_csv
+                             else ['df', 'df', 'pickle', 'pickle', 'pickle.gz'])
+        x['bulk'] = r.random() < 0.5
+        if x['mode'] == 'csv':
+            x['bulk'] = True            # only the one-column --bulk CSV is read back
+        if r.random() < 0.06:
+            x['showtags'] = True
+        if r.random() < 0.03:
+            x['mode'] = 'none'
+        return x
+
     def opts(self):
         r = self.rng
         o = {}
@@ -826,19 +1164,42 @@ class Prop(fw.PropBase):
         'the tag name, fetch(contig) / fetch(contig,start,end) overlap semantics), collections.Counter accumulation, pandas '
         'DataFrame.from_dict and index naming (an EMPTY table with >= 2 sample tags raises ValueError in '
         'df.columns.set_names - observed, outside the statement; the captured Counter is compared there)',
-        'float accumulation is modelled by exact rationals (QArith); K converts DataFrame values with '
-        'Fraction(float).limit_denominator(10^6) and verifies |float - fraction| <= 1e-9',
-        'float(str(x)) of by-value tags is modelled for plain decimal literals [+-]digits[.digits]; exponents, inf/nan, '
-        'underscores and surrounding whitespace are outside the model; float-typed (f) tags are outside the model',
+        'float accumulation is modelled by exact rationals (QArith); K converts a DataFrame value v to Fraction(v) itself '
+        'when its denominator is <= 2^40 (weights 1, 1/2, 1/4, float tags), else to Fraction(v).limit_denominator(10^6) and '
+        'verifies |float - fraction| <= 1e-9 (thirds, fifths ...)',
+        'float(str(x)) of by-value tags is modelled for plain decimal literals [+-]digits[.digits]; exponents, inf/nan '
+        'and underscores are outside the model',
+        'float typed tags (BAM f = float32, d = double): the model carries the exact rational value of the float pysam '
+        'returns (float.as_integer_ratio of the implementation\'s own value) and the text str() gives for it; modelled not '
+        'verified: float(str(x)) == x (repr round trip) and that IEEE accumulation of the generated values is exact - the '
+        'generator keeps every float tag a multiple of 2^-40 with |v| <= 256, at most 32 records per library, and all pair / '
+        'multimapping weights dyadic on those libraries (checked on the read-back of every generated library); NaN / inf '
+        'tags and float typed SAMPLE tags (Python equates the dict keys 1.0 and 1, the model does not) are not generated',
+        '-head: the break test and its place before / after the assignReads call are regenerated from the two record '
+        'loops of create_count_table on every run (translate_head, fail closed: any other control flow in the loop bodies '
+        'is refused) and proved equal to the hand-written loops (loop_plain: test before the call, loop_bed: test after the '
+        'call); that the counter restarts at 0 per file and per BED region, and the loop nesting, are hand-modelled and tied '
+        'by K (every head value -1 .. n+2 on small libraries, plain / -contig / BED)',
+        '--bulk: DataFrame.sum(axis=1) is modelled as the per-key sum over all samples; pickle / gzip pickle / CSV '
+        'writing and reading back are trusted; a CSV holds key components as text, so CSV outcomes are compared after '
+        'str() of every key component and only for the one-column --bulk table; where pandas itself is lossy (empty '
+        'tuple key, ragged tuple keys) the Counter handed to DataFrame.from_dict, summed over the samples, is the observation',
+        '--showtags: any way of ending the call without a table (SystemExit, or returning nothing and writing no file) is '
+        'the observation "exit"; what is printed is not compared',
         'attribute fall-back of metaFromRead is modelled for reference_name, mapping_quality, reference_start only; every '
         'other name that is not a tag is modelled as AttributeError -> None',
-        'the binned branch (-bin) is C10; -head, --bulk, --showtags and file output are outside the model',
+        'the binned branch (-bin) is C10; index / column NAMES (--noNames) are not compared (not constrained by the '
+        'statement); blacklist / BED file parsing is modelled as the parsed rows',
     ]
     ASSUMPTIONS = [
-        'no-raise / table theorems assume wf_read: a mapped record has a CIGAR and a reference end, NM and NH are integer '
-        'typed, NH <> 0, every non-empty XA entry has 4 comma separated fields; and wf_opts: at least one feature tag, a '
-        'non-empty delimiter with --splitFeatures, not (joined tags + --splitFeatures + -byValue: documented '
-        'NotImplementedError)',
+        'no-raise / table theorems assume wf_read: a mapped record has a CIGAR and a reference end, NM is not a string tag '
+        '(integer, or float: int() truncates), NH is an integer tag <> 0, XA is a string tag whose non-empty entries have 4 '
+        'comma separated fields; and wf_opts: at least one feature tag, a non-empty delimiter with --splitFeatures, not '
+        '(joined tags + --splitFeatures + -byValue: documented NotImplementedError); the extended statements (xpre) assume '
+        'the same of every record of every file',
+        'float typed tags are finite (no NaN / inf) and are not used as sample tags',
+        '-head theorems describe the code as it is (N + 1 records, N + 2 per BED region), not the documented "first N '
+        'reads" (refuted: C11_head_documented_refuted, finding D33, fixes/C11-D33.patch)',
         '-contig and BED contigs are contigs of the BAM header (pysam raises otherwise); BED regions have start < end',
         'int()/float() of tag strings: surrounding ASCII whitespace is modelled; underscores, exponents, inf/nan and '
         'non-ASCII whitespace are not generated',
@@ -980,10 +1341,17 @@ class Prop(fw.PropBase):
         for h in hists:
             h['lib'] += off
         libs, cases = clibs + libs, ccases + cases
+        xcases = self.build_xcases(libs, cases, first_regular=off, n_regular=len(libs) - off - 1)
         for c in cases:
             c['direct'] = self.direct_spec(c['opts'])
-        res = fw.run_impl('impl_c11.py', {'libs': libs, 'cases': cases, 'filter': True, 'histories': hists})
+        res = fw.run_impl('impl_c11.py', {'libs': libs, 'cases': cases, 'filter': True, 'histories': hists,
+                                          'xcases': xcases})
+        lift_floats(res['libs'])
+        for k, l in enumerate(libs):
+            if l.get('floats') and not exact_floats_ok(res['libs'][k]):
+                raise RuntimeError('generated float library %d leaves the exactly summable range' % k)
         self.libs, self.cases, self.hists, self.res, self.n_corpus = libs, cases, hists, res, len(ccases)
+        self.xcases = xcases
         nst = lambda o: len(o.get('sampleTags', 'SM').split(','))
         items, notes = [], {}
         for i, (c, r) in enumerate(zip(cases, res['cases'])):
@@ -999,20 +1367,119 @@ class Prop(fw.PropBase):
             for k, r in enumerate(steps):
                 kind, table, note = self.observed(r, nst(h['steps'][k]))
                 items.append({'t': 'history', 'opts': h['steps'][k], 'lib': h['lib'], 'obs': (kind, table), 'h': hi, 'k': k})
+        for n, (c, r) in enumerate(zip(xcases, res.get('xcases', []))):
+            kind, table, note = self.observed_x(r, c['opts'], c['x'])
+            items.append({'t': 'x', 'opts': c['opts'], 'x': c['x'], 'lib': c['lib'], 'obs': (kind, table), 'i': n,
+                          'csv': bool(r.get('csv')) or c['x'].get('mode') == 'csv'})
+            if note:
+                notes[note] = notes.get(note, 0) + 1
         self.items, self.obs_notes = items, notes
         return items
 
+    # ---------------------------------------------------------------- extension: cases and observation
+    def build_xcases(self, libs, cases, first_regular, n_regular):
+        """appends float-tag libraries (and plain `call` cases on them) to libs / cases; returns the x cases:
+        several files, -head around the number of records, --bulk, --showtags, output modes"""
+        quick = self.tier == 'quick'
+        g = Gen(self.rng)
+        r = self.rng
+        regular = list(range(first_regular, first_regular + n_regular))
+        fixed = first_regular + n_regular
+        floats = []
+        for _ in range(24 if quick else 100):
+            libs.append(g.flib(r.choice([1, 2, 3, 4, 6, 8, 12, 16])))
+            floats.append(len(libs) - 1)
+            for _ in range(3 if quick else 5):
+                cases.append({'lib': floats[-1], 'opts': g.fopts()})
+        xcases = []
+
+        def add(ids, o, x):
+            xcases.append({'lib': ids, 'opts': o, 'x': x})
+
+        def pick(pool):
+            k = r.choice([1, 1, 1, 1, 2, 2, 3])
+            return [r.choice(pool) for _ in range(k)]
+        nx = 420 if quick else 2500
+        for _ in range(nx):
+            fl = r.random() < 0.45
+            ids = pick(floats if fl else regular)
+            o = g.fopts() if (fl and r.random() < 0.75) else g.opts()
+            if 'bed' in o and r.random() < 0.6:
+                d = directed_intervals(r, libs[ids[0]], len(o['bed']))
+                if d:
+                    o['bed'] = [iv + ['b%d' % (k % 3)] for k, iv in enumerate(d)]
+            nmax = max(len(libs[i]['reads']) for i in ids)
+            add(ids, o, g.xopt(r.choice([nmax, nmax, len(libs[ids[0]]['reads']), 3])))
+        # directed: every head value -1 .. n+2 on small libraries, plain / contig / BED, with and without --bulk
+        small = [i for i in floats + regular if 2 <= len(libs[i]['reads']) <= 6][:(6 if quick else 30)]
+        for i in small:
+            n = len(libs[i]['reads'])
+            for h in range(-1, n + 3):
+                for o in ({'joinedFeatureTags': 'chrom'}, {'featureTags': 'GN', 'contig': 'chr1'},
+                          {'joinedFeatureTags': 'chrom', 'bed': [['chr1', 0, 1000, 'all'], ['chr1', 0, 120, 'left']]}):
+                    add([i], dict(o), {'head': h, 'mode': r.choice(['df', 'pickle']), 'bulk': r.random() < 0.5})
+        add([], {'joinedFeatureTags': 'chrom'}, {'mode': 'df'})
+        add([], {'joinedFeatureTags': 'chrom'}, {'mode': 'pickle', 'showtags': True})
+        add([fixed], {'joinedFeatureTags': 'chrom'}, {'mode': 'df', 'showtags': True})
+        add([fixed], {'joinedFeatureTags': 'chrom'}, {'mode': 'none'})
+        add([fixed, fixed], {'joinedFeatureTags': 'chrom,RC'}, {'mode': 'pickle', 'bulk': True, 'head': 7})
+        add([fixed], {'joinedFeatureTags': 'chrom,RC', 'sampleTags': 'SM,LY'}, {'mode': 'csv', 'bulk': True})
+        add([fixed], {'featureTags': 'GN', 'splitFeatures': True}, {'mode': 'pickle.gz', 'bulk': True})
+        return xcases
+
+    def files_of(self, res, it):
+        return [res['libs'][i] for i in it['lib']]
+
+    @staticmethod
+    def bulk_of(table):
+        out = {}
+        for (smp, key), v in table.items():
+            out[(XOracle.BULK, key)] = out.get((XOracle.BULK, key), 0) + v
+        return {k: v for k, v in out.items() if v != 0}
+
+    def observed_x(self, r, o, x):
+        """impl outcome of an x case -> (kind, table, note); kind 'ok' / 'raise' / 'exit'"""
+        if r.get('exit'):
+            return 'exit', None, None
+        nst = len(o.get('sampleTags', 'SM').split(','))
+        bulk = bool(x.get('bulk')) and x.get('mode') != 'df'
+        csv = bool(r.get('csv'))
+        if 'error' in r or not (bulk or csv):
+            return self.observed(r, nst)
+        df = cells_dict(r['cells'])
+        if r.get('raw') is None:
+            return 'ok', df, None
+        raw = cells_dict(r['raw'])
+        exp = self.bulk_of(raw) if bulk else raw
+        if csv:
+            exp = strkeys(exp)
+        if exp == df:
+            return 'ok', df, None
+        # pandas is lossy for an empty tuple key and for tuple keys of different lengths; a CSV of such an index holds
+        # tuple texts: the Counter handed to DataFrame.from_dict (summed over the samples) is the observation there
+        lens = set(len(k[1]) for k in raw)
+        if 0 in lens:
+            return 'ok', exp, 'empty-key(pandas drops it)'
+        if len(lens) > 1 and (csv or min(lens) >= 2):
+            return 'ok', exp, 'ragged-keys(pandas drops them)'
+        return 'ok', df, 'dataframe-differs-from-counter'
+
     # ---------------------------------------------------------------- K
     def correspondence(self):
-        items = self.run_all()
+        all_items = self.run_all()
+        items = [it for it in all_items if it['t'] != 'x']
+        xitems = [it for it in all_items if it['t'] == 'x']
         libs, cases, res = self.libs, self.cases, self.res
         hist = {'raise': 0, 'ok_empty': 0, 'ok_nonempty': 0, 'notes': self.obs_notes}
         opt_hist, kinds = {}, {}
-        for it in items:
+        hist['exit'] = 0
+        for it in all_items:
             kind, table = it['obs']
             kinds[it['t']] = kinds.get(it['t'], 0) + 1
             if kind == 'raise':
                 hist['raise'] += 1
+            elif kind == 'exit':
+                hist['exit'] += 1
             else:
                 hist['ok_nonempty' if table else 'ok_empty'] += 1
             if it['t'] != 'direct':
@@ -1023,14 +1490,15 @@ class Prop(fw.PropBase):
                 opt_hist[m] = opt_hist.get(m, 0) + 1
         nreads = sum(len(l['reads']) for l in libs)
         distinct = set()
-        for it in items:
+        for it in all_items:
             kind, table = it['obs']
             if kind == 'ok' and table:
                 l0 = it['lib'] if isinstance(it['lib'], int) else it['lib'][0]
                 distinct.add(fw.canon_hash([it['t'], json.dumps(it['opts'], sort_keys=True), str(it['lib']),
-                                            str(it.get('h')), str(it.get('k')), json.dumps(libs[l0], sort_keys=True)]))
+                                            str(it.get('h')), str(it.get('k')), json.dumps(it.get('x'), sort_keys=True),
+                                            json.dumps(libs[l0], sort_keys=True)]))
         weights = {}
-        for it in items:
+        for it in all_items:
             if it['obs'][0] == 'ok':
                 for v in it['obs'][1].values():
                     weights[str(v.denominator)] = weights.get(str(v.denominator), 0) + 1
@@ -1038,12 +1506,14 @@ class Prop(fw.PropBase):
                         and it['opts']['byValue'] not in it['opts']['joinedFeatureTags'].split(',')
                         and it['opts']['byValue'] in it['opts']['joinedFeatureTags'])
         self.cov.update({
-            'evaluations': len(items), 'distinct_nontrivial': len(distinct),
+            'evaluations': len(all_items), 'distinct_nontrivial': len(distinct),
             'rule': 'one evaluation = one count table produced by the implementation on a synthetic BAM: a create_count_table('
                     'args, return_df=True) call with a fresh namespace (call), one step of a history of calls on ONE namespace '
                     'whose options are edited between the calls (history), or assignReads called directly on every record with '
-                    'the caller\'s options (direct); distinct by hash of (kind, options, position in the history, library); '
-                    'non-trivial = the table is non-empty',
+                    'the caller\'s options (direct), or one create_count_table call of the extended kind (x: 0-3 BAM files, '
+                    '-head, --bulk, --showtags, return_df / pickle / pickle.gz / csv output, float typed tags); distinct by '
+                    'hash of (kind, options, position in the history, extended options, library); non-trivial = the table '
+                    'is non-empty',
             'evaluation_kinds': kinds, 'histories': len(self.hists),
             'byvalue_tag_substring_of_feature_names': substr_bv,
             'libraries': len(libs), 'records': nreads, 'result_histogram': hist, 'option_histogram': opt_hist,
@@ -1059,6 +1529,14 @@ class Prop(fw.PropBase):
         self.cov['samples'] = [{'kind': it['t'], 'opts': describe(it['opts']), 'records': len(self.reads_of(res, it)),
                                 'impl_table': [[list(k[0]), list(k[1]), str(v)] for k, v in sorted(it['obs'][1].items(), key=str)][:6]}
                                for it in s]
+        xs = [it for it in xitems if it['obs'][0] == 'ok' and it['obs'][1] and it['x'].get('head') is not None
+              and it['x'].get('bulk') and it['x'].get('mode') not in ('df', 'csv') and it['opts'].get('byValue') in ('fv', 'dv')][:1] + \
+             [it for it in xitems if it['obs'][0] == 'ok' and it['obs'][1] and len(it['lib']) > 1 and it['x'].get('head') is not None][:1]
+        self.cov['samples'] += [{'kind': 'x', 'opts': describe(it['opts']), 'x': it['x'],
+                                 'records_per_file': [len(f) for f in self.files_of(res, it)],
+                                 'impl_table': [[[str(c) for c in k[0]], list(k[1]), str(v)]
+                                                for k, v in sorted(it['obs'][1].items(), key=str)][:6]} for it in xs]
+        self.cov['extension'] = self.x_histograms(xitems, items)
         if not self.model_ok:
             return
         minputs = [[enc_opts(it['opts']), [enc_read(b) for b in self.reads_of(res, it)]] for it in items]
@@ -1084,10 +1562,11 @@ class Prop(fw.PropBase):
         spbad = [n for n, v in enumerate(sp) if v != 1]
         self.cov['specb_on_impl_output'] = {'evaluated': len(sp), 'violated': len(spbad)}
         dis = sorted(set(dis) | set(spbad))
-        self.cov['traces_validated_against_impl'] = len(items)
+        xdis = self.x_correspondence(xitems)
+        self.cov['traces_validated_against_impl'] = len(items) + len(xitems)
         self.cov['filter_decisions_validated'] = nflt
         self.cov['precondition_hit_rate'] = round(sum(1 for v in mpre if v == 1) / max(1, len(mpre)), 4)
-        self.cov['disagreements'] = len(dis) + len(fdis)
+        self.cov['disagreements'] = len(dis) + len(fdis) + len(xdis)
         # python transcription of the specification against the model (keeps the search oracle honest)
         bad_oracle = 0
         for n, it in enumerate(items):
@@ -1107,6 +1586,12 @@ class Prop(fw.PropBase):
             raise fw.Broken('extraction', 'vm_compute and extracted model disagree: ' + log[-800:])
         if bad_oracle:
             raise fw.Broken('harness', 'python oracle and Coq model disagree on %d cases' % bad_oracle)
+        if xdis and not (dis or fdis):
+            n, m = xdis[0]
+            it = xitems[n]
+            raise fw.Broken('correspondence', 'model (xrun) and implementation disagree on %d extended calls; first: x case %d '
+                            'files=%r opts=%r x=%r: impl=%s model=%s' % (len(xdis), it['i'], it['lib'], describe(it['opts']),
+                                                                         it['x'], self.show(it['obs']), self.show(m)))
         if dis or fdis:
             if dis:
                 it = items[dis[0]]
@@ -1117,6 +1602,85 @@ class Prop(fw.PropBase):
                 d = 'read_should_be_counted on record %d of case %d opts=%r: impl=%r model=%r' % (j, items[n]['i'], describe(items[n]['opts']), fi, fm)
             raise fw.Broken('correspondence', 'model and implementation disagree on %d tables and %d filter decisions; first: %s'
                             % (len(dis), len(fdis), d))
+
+    # ---------------------------------------------------------------- K, extension
+    def x_histograms(self, xitems, items):
+        res = self.res
+        modes, heads, nfiles, kinds = {}, {}, {}, {}
+        bulk = fl = bvfloat = 0
+        for it in xitems:
+            x = it['x']
+            modes[x.get('mode', 'df')] = modes.get(x.get('mode', 'df'), 0) + 1
+            nfiles[str(len(it['lib']))] = nfiles.get(str(len(it['lib'])), 0) + 1
+            kinds[it['obs'][0]] = kinds.get(it['obs'][0], 0) + 1
+            bulk += bool(x.get('bulk')) and x.get('mode') != 'df'
+            if any(self.libs[i].get('floats') for i in it['lib']):
+                fl += 1
+            h = x.get('head')
+            if h is None:
+                c = 'none'
+            else:
+                pres = XOracle(it['opts'], dict(x, head=None)).presented(self.files_of(res, it))
+                n = len(pres)
+                full = len(XOracle(it['opts'], x).presented(self.files_of(res, it)))
+                c = 'negative' if h < 0 else ('cuts' if full < n else 'beyond-the-end')
+            heads[c] = heads.get(c, 0) + 1
+        for it in list(items) + list(xitems):
+            bv = it['opts'].get('byValue')
+            if bv and it['obs'][0] == 'ok' and it['obs'][1]:
+                files = self.files_of(res, it) if it['t'] == 'x' else [self.reads_of(res, it)]
+                if any(isinstance(v, Flt) for f in files for b in f for k, t, v in b['tags'] if k == bv[:2]):
+                    bvfloat += 1
+        return {'x_calls': len(xitems), 'output_mode': modes, 'files_per_call': nfiles, 'outcome': kinds,
+                'bulk_on_file_output': bulk, 'head': heads, 'calls_on_float_tag_libraries': fl,
+                'float_tag_libraries': sum(1 for l in self.libs if l.get('floats')),
+                'nonempty_tables_by_value_on_a_float_typed_tag': bvfloat}
+
+    def x_inputs(self, xitems):
+        return [[enc_x(it['opts'], it['x']), [[enc_read(b) for b in f] for f in self.files_of(self.res, it)]] for it in xitems]
+
+    def x_correspondence(self, xitems):
+        """model xrun (mode 5) / proved specification xspecb (mode 7) / python transcription against the implementation"""
+        if not xitems:
+            return []
+        xin = self.x_inputs(xitems)
+        xout = fw.run_model('C11', 5, xin)
+        xpre = fw.run_model('C11', 6, xin)
+        xdis = []
+        for n, it in enumerate(xitems):
+            m = dec_xmodel(xout[n])
+            if it['csv'] and m[0] == 'ok':
+                m = ('ok', strkeys(m[1]))
+            if it['obs'] != m:
+                xdis.append((n, m))
+        typed = [n for n, it in enumerate(xitems) if not it['csv']]
+        sp = fw.run_model('C11', 7, [[xin[n], enc_xobs(*xitems[n]['obs'])] for n in typed])
+        spbad = [typed[k] for k, v in enumerate(sp) if v != 1]
+        self.cov['extension']['xspecb_on_impl_outcome'] = {'evaluated': len(sp), 'violated': len(spbad),
+                                                          'skipped_csv(keys are text)': len(xitems) - len(typed)}
+        known = set(n for n, _ in xdis)
+        xdis += [(n, dec_xmodel(xout[n])) for n in spbad if n not in known]
+        self.cov['extension']['precondition_hit_rate'] = round(sum(1 for v in xpre if v == 1) / max(1, len(xpre)), 4)
+        bad_oracle = 0
+        for n, it in enumerate(xitems):
+            files = self.files_of(self.res, it)
+            xo = XOracle(it['opts'], it['x'])
+            exp = xo.outcome(files)
+            if (exp is None) != (xpre[n] == 0 and bool(files) and not xo.exits()):
+                bad_oracle += 1
+            elif exp is not None and dec_xmodel(xout[n]) != exp:
+                bad_oracle += 1
+        self.cov['extension']['oracle_vs_model_mismatches'] = bad_oracle
+        small = [n for n in range(len(xitems)) if sum(len(f) for f in xin[n][1]) <= 6]
+        idx = sorted(self.rng.sample(small, min(100, len(small))))
+        ok, nm, log = fw.vm_crosscheck('C11', 5, [(xin[n], xout[n]) for n in idx], run_name='run_C11x', require='Model.C11x')
+        self.cov['extension']['vm_compute_crosscheck'] = {'cases': len(idx), 'mismatches': nm}
+        if not ok:
+            raise fw.Broken('extraction', 'vm_compute and extracted model (xrun) disagree: ' + log[-800:])
+        if bad_oracle:
+            self.notes.append('python oracle (XOracle) and Coq model disagree on %d cases (harness defect)' % bad_oracle)
+            raise fw.Broken('harness', 'python oracle (XOracle) and Coq model disagree on %d cases' % bad_oracle)
+        return xdis
 
     @staticmethod
     def where(it):
@@ -1129,6 +1693,8 @@ class Prop(fw.PropBase):
         kind, t = x
         if kind == 'raise':
             return 'raise ' + str(t)
+        if kind == 'exit':
+            return 'ended without a table (exit)'
         return str(sorted(([list(k[0]), list(k[1]), str(v)] for k, v in t.items()), key=str))[:700]
 
     # ---------------------------------------------------------------- search
@@ -1149,11 +1715,25 @@ class Prop(fw.PropBase):
         if getattr(self, 'items', None) is None:
             self.run_all()
         res, items = self.res, self.items
-        bad = []
+        bad, xbad = [], []
         for n, it in enumerate(items):
+            if it['t'] == 'x':
+                files = self.files_of(res, it)
+                why = self.violates_x(it['opts'], it['x'], files, it['obs'], it['csv'])
+                if why:
+                    xbad.append((sum(len(f) for f in files), len(describe(it['opts'])) + len(it['x']), n, why))
+                continue
             why = self.violates(it['opts'], self.reads_of(res, it), *it['obs'])
             if why:
                 bad.append((len(self.reads_of(res, it)) + (50 if it['t'] == 'history' else 0), len(describe(it['opts'])), n, why))
+        if self.model_ok and xbad:
+            sel = [b[2] for b in sorted(xbad)[:20] if not items[b[2]]['csv']]
+            try:
+                sp = fw.run_model('C11', 7, [[self.x_inputs([items[n]])[0], enc_xobs(*items[n]['obs'])] for n in sel])
+                self.notes.append('xspecb (mode 7) on the implementation outcome of %d suspicious extended calls: %d violated'
+                                  % (len(sel), sum(1 for v in sp if v == 0)))
+            except Exception as e:
+                self.notes.append('xspecb evaluation failed: %r' % (e,))
         if self.model_ok and bad:
             # the same question put to the proved specification (mode 2 specb) for the first few
             sel = [b[2] for b in sorted(bad)[:20]]
@@ -1175,6 +1755,135 @@ class Prop(fw.PropBase):
             self.witnesses.append(w)
             if len(self.witnesses) >= 4:
                 break
+        nx, max_x = 0, (1 if self.witnesses else 3)     # the plain calls already gave witnesses: one extended one suffices
+        for _, _, n, why in sorted(xbad):
+            it = items[n]
+            kind = it['obs'][0]
+            cat = 'x:' + ('raise:' + str(it['obs'][1]) if kind == 'raise' else ('exit' if kind == 'exit' else 'cells')) \
+                + (':head' if it['x'].get('head') is not None else '') \
+                + (':bulk' if (it['x'].get('bulk') and it['x'].get('mode') != 'df') else '') \
+                + (':exit-expected' if XOracle(it['opts'], it['x']).exits() else '')
+            if cat in seen:
+                continue
+            seen.add(cat)
+            w = self.shrink_x(it, why)
+            w['key'] = 'table:' + cat
+            self.witnesses.append(w)
+            nx += 1
+            if nx >= max_x:
+                break
+
+    # ---------------------------------------------------------------- search, extension
+    def violates_x(self, opts, x, files, obs, csv=False):
+        """the extended specification (python transcription XOracle) evaluated on an implementation outcome"""
+        xo = XOracle(opts, x)
+        exp = xo.outcome(files)
+        if exp is None:
+            return None
+        if csv and exp[0] == 'ok':
+            exp = ('ok', strkeys(exp[1]))
+        kind, table = obs
+        if (kind, table) == exp:
+            return None
+        if exp[0] == 'raise':
+            return 'no alignment file given: ValueError expected, got: %s' % self.show(obs)
+        if exp[0] == 'exit':
+            return ('--showtags (or neither -o nor return_df): the call must end without counting anything, got: %s'
+                    % self.show(obs))
+        if kind == 'raise':
+            return 'raised %s; the specification gives the table %s' % (table, self.show(exp))
+        if kind == 'exit':
+            return 'ended without a table; the specification gives the table %s' % self.show(exp)
+        if x.get('head') is not None:
+            doc = XOracle(opts, dict(x, head_documented=True)).outcome(files)
+            if csv and doc and doc[0] == 'ok':
+                doc = ('ok', strkeys(doc[1]))
+            if doc == (kind, table):
+                msg = ('-head now follows its documented meaning (the first N records) on some inputs; Model/C11x.v and the '
+                       'C11_head theorems state the coded N+1 (plain) / N+2 (BED) prefix: the model has to follow the source')
+                if msg not in self.notes:
+                    self.notes.append(msg)
+                return None
+        diff = sorted(set(table.items()) ^ set(exp[1].items()), key=str)[:4]
+        what = ('the Bulkseq column differs from the per-key sum, over all samples, of the contributions of the records handed '
+                'to assignReads' if xo.bulk_mode() else
+                'table differs from the group-by sum over the records the loops hand to assignReads')
+        if x.get('head') is not None:
+            what += ' (-head %s: first N+1 records of each file; BED: first N+2 of each region)' % x['head']
+        return '%s: got %s expected %s (diff %s)' % (what, self.show(obs), self.show(exp),
+                                                     [[list(k[0]), list(k[1]), str(v)] for k, v in diff])
+
+    def rerun_x(self, cands):
+        """cands: [(opts, x, [readspec list per file])] -> [(files as pysam sees them, (kind, table), csv)]"""
+        libs, xcases = [], []
+        for o, x, files in cands:
+            ids = []
+            for f in files:
+                libs.append({'contigs': CONTIGS, 'reads': f})
+                ids.append(len(libs) - 1)
+            xcases.append({'lib': ids, 'opts': o, 'x': x})
+        out = fw.run_impl('impl_c11.py', {'libs': libs, 'cases': [], 'xcases': xcases})
+        lift_floats(out['libs'])
+        res = []
+        for c, r in zip(xcases, out['xcases']):
+            kind, table, _ = self.observed_x(r, c['opts'], c['x'])
+            res.append(([out['libs'][i] for i in c['lib']], (kind, table), bool(r.get('csv')) or c['x'].get('mode') == 'csv'))
+        return res
+
+    def shrink_x(self, it, why):
+        """greedy: drop files, drop single records, drop options, while the implementation's outcome still violates the
+        extended specification (every candidate is re-run on the implementation)"""
+        o, x = dict(it['opts']), dict(it['x'])
+        files = [list(self.libs[i]['reads']) for i in it['lib']]
+        how = ('create_count_table(args%s) with a fresh options namespace; one coordinate-sorted BAM per entry of `files`; '
+               'x.mode: df = return_df=True, pickle / pickle.gz / csv = -o <file>, none = neither'
+               % (', return_df=True' if x.get('mode', 'df') == 'df' else ''))
+
+        def pack(o, x, files, obs, why):
+            return {'what': why, 'impl': self.show(obs),
+                    'input': {'how': how, 'opts': describe(o), 'x': x,
+                              'files': [{'contigs': CONTIGS, 'reads': f} for f in files]}}
+        best = pack(o, x, files, it['obs'], why)
+        try:
+            for _ in range(30):
+                cands = []
+                for k in range(len(files)):
+                    if len(files) > 1:
+                        cands.append((o, x, files[:k] + files[k + 1:]))
+                for k, f in enumerate(files):
+                    for j in range(len(f)):
+                        cands.append((o, x, files[:k] + [f[:j] + f[j + 1:]] + files[k + 1:]))
+                for key in [k for k in describe(o) if k not in ('joinedFeatureTags', 'featureTags', 'sampleTags')]:
+                    o2 = dict(o); o2.pop(key)
+                    cands.append((o2, x, files))
+                for key, val in (('bulk', False), ('showtags', False), ('mode', 'df'), ('head', None)):
+                    if x.get(key) not in (val, None):
+                        cands.append((o, dict(x, **{key: val}), files))
+                cands = cands[:120]
+                hit = None
+                for (o2, x2, f2), (back, obs, csv) in zip(cands, self.rerun_x(cands)):
+                    y = self.violates_x(o2, x2, back, obs, csv)
+                    if y:
+                        hit = (o2, x2, f2, obs, y, back)
+                        break
+                if hit is None:
+                    break
+                o, x, files = hit[0], hit[1], hit[2]
+                best = pack(o, x, files, hit[3], hit[4])
+                exp = XOracle(o, x).outcome(hit[5])
+                best['expected'] = self.show(exp) if exp else None
+            return best
+        except Exception as e:
+            self.notes.append('shrinking (extended call) failed: %r' % (e,))
+            return best
+
+    def replay_known(self, finding):
+        """D33: -head N hands N+1 records (plain) to assignReads instead of the documented N"""
+        if not str(finding.get('key', '')).startswith('D33'):
+            return True
+        rd = lambda p: {'name': 'r%d' % p, 'flag': 0, 'ref': 0, 'pos': p, 'mapq': 60, 'cigar': '20M', 'tags': [['SM', 'Z', 'c1']]}
+        back, obs, _ = self.rerun_x([({'joinedFeatureTags': 'chrom'}, {'head': 1, 'mode': 'df'}, [[rd(10), rd(40), rd(70)]])])[0]
+        return obs[0] == 'ok' and sum(obs[1].values()) != 1
 
     def rerun(self, t, opts_or_steps, contigs, sublibs):
         """run one item kind on several small libraries; returns [(reads as pysam sees them, (kind, table))]"""
